@@ -4,6 +4,7 @@
 package c17
 
 import (
+	"errors"
 	"bufio"
 	"context"
 	"crypto/x509"
@@ -128,7 +129,10 @@ func scenarios(rng *rand.Rand, n int) []sims.Scenario {
 		if route == "http" && rng.IntN(2) == 0 {
 			cache = "healthy"
 		}
-		out = append(out, mkScenario(l, a, "validate", route, cache))
+		sc := mkScenario(l, a, "validate", route, cache)
+		// half of the cached scenarios discard cache errors
+		sc.Discard = cache != "" && len(out)%2 == 0
+		out = append(out, sc)
 	}
 	return out
 }
@@ -450,9 +454,24 @@ func execCase(idx int, c Case) Record {
 }
 
 func afterCall(rec *Record, env *sims.Env) {
+	inFlight := 0
+	if env.Cache != nil {
+		inFlight = env.Cache.CallOver()
+	}
 	if rec.Sig != "" {
 		return
 	}
+	if inFlight > 0 {
+		rec.Sig, rec.What = "cache-operation-left-open", fmt.Sprintf("%d operation(s) on the caller's cache were still in flight when the call returned", inFlight)
+		return
+	}
+	defer func() {
+		// whatever still touches the caller's cache after the call returned was
+		// started by the call and left behind
+		if rec.Sig == "" && env.Cache != nil && env.Cache.Late() > 0 {
+			rec.Sig, rec.What = "cache-used-after-return", fmt.Sprintf("%d operation(s) on the caller's cache began after the call had returned", env.Cache.Late())
+		}
+	}()
 	if gs := leftBehind(); len(gs) > 0 {
 		rec.Sig, rec.What = "goroutine-left-behind", fmt.Sprintf("%d library goroutine(s) still present 500 ms after the call returned:\n%s", len(gs), trunc(strings.Join(gs, "\n\n"), 3000))
 		return
@@ -882,13 +901,29 @@ func execCallersFault(rec *Record, c Case) {
 	afterCall(rec, env)
 }
 
+// panicValue is a panic value that is neither a string nor an error.
+type panicValue struct{ name string }
+
+func (p panicValue) String() string { return p.name }
+
 func execPanic(rec *Record, c Case) {
 	sc := c.Sc
 	env := sc.Prepare()
 	injected := map[string]bool{}
-	for _, p := range c.PanicAt {
-		val := "injected-panic@" + p
-		injected[val] = true
+	for i, p := range c.PanicAt {
+		name := "injected-panic@" + p
+		injected[name] = true
+		// several panics of one call carry values of DIFFERENT dynamic types (a
+		// string, an error, a struct, a pointer): all print as their name
+		var val any = name
+		switch i % 4 {
+		case 1:
+			val = errors.New(name)
+		case 2:
+			val = panicValue{name}
+		case 3:
+			val = &panicValue{name}
+		}
 		switch {
 		case p == "cache-get" && env.Cache != nil:
 			env.Cache.PanicOn, env.Cache.PanicVal = "get", val
